@@ -5,35 +5,66 @@
 static void mon_read_block(struct DataAccess *obj, unsigned long lba) { (void)obj; (void)lba; }
 static void mon_read_result(struct DataAccess *obj, _Bool ok) { (void)obj; (void)ok; }
 #include "hfe_block_sizes.inc"
+#include "HfeCopyState.inc"
 static size_t size_min(size_t a, size_t b) { return a < b ? a : b; }     /* std::min */
 static unsigned h_side; static size_t h_n;
-static struct { unsigned long calls; _Bool hfe3; } SB;
-/* copy_hfe(hfe3, raw + begin, raw + end, back_inserter(track_stream)): its own contract is enforced in dfs_copyhfe.c;
-   here the k-th call must be given block 2k + side */
-static void copy_hfe_v(_Bool hfe3, size_t begin, size_t end)
+static struct { unsigned long calls; _Bool hfe3; struct HfeCopyState *state; byte op_left; unsigned long warned; } SB;
+/* copy_hfe(hfe3, raw + begin, raw + end, back_inserter(track_stream), state): its own contract is enforced in
+   dfs_copyhfe.c; here the k-th call must be given block 2k + side, and the decoding state (opcode waiting for its operand,
+   unfinished output byte) must be ONE object for the whole track: fresh (all zero) at the first block and, at every later
+   block, what the previous call left -- otherwise an opcode whose operand opens the next block, or the cells after a
+   SKIPBITS, are lost at the block boundary (C05: "any placement of ... opcodes between cells") */
+static void copy_hfe_v(_Bool hfe3, size_t begin, size_t end, struct HfeCopyState *state)
 {
   __CPROVER_assert(begin == 256ul * h_side + 512ul * SB.calls, "C05: the k-th block copied for side h starts at byte 512 k + 256 h of the track data");
   __CPROVER_assert(end == (begin + 256 < h_n ? begin + 256 : h_n) && begin < end, "C05: a block is 256 bytes, or what is left of the track data");
+  __CPROVER_assert(state != 0, "C05: the decoding state is carried from one side block to the next (a state object is handed to copy_hfe)");
+  if (state != 0)
+    {
+      if (SB.calls == 0)
+        __CPROVER_assert(state->got_bits == 0 && state->out == 0 && state->this_op == 0, "C05: the decoding state is empty at the first block of a track");
+      else
+        __CPROVER_assert(state == SB.state, "C05: every block of the track is decoded with the same state object");
+      /* what copy_hfe leaves behind (its contract: the automaton's state): unconstrained here but for its ranges */
+      state->got_bits = nondet_int(); state->out = nondet_uchar(); state->this_op = nondet_uchar();
+      __CPROVER_assume(0 <= state->got_bits && state->got_bits < 8);
+      SB.op_left = state->this_op;
+    }
+  SB.state = state;
   SB.hfe3 = hfe3;
   if (SB.calls < (1ul << 40)) SB.calls++;
 }
+/* premature_stream_end(opcode): a warning on stderr; it has to be about the opcode the LAST block left waiting */
+static void premature_stream_end_model(byte opcode)
+{
+  __CPROVER_assert(SB.calls > 0 && opcode == SB.op_left && opcode != 0, "C05: the end-of-track warning names the opcode still waiting for its operand");
+  SB.warned++;
+}
+/* the state object, when the source has one, is a local of the extracted region: the extraction rule that meets its
+   declaration redefines these two macros to name it */
+#define SIDE_STATE_TARGET
+#define SIDE_STATE_INV 1
+#define SIDE_STATE_INV_FOR(st) (SB.calls == 0 ? ((st).got_bits == 0 && (st).out == 0 && (st).this_op == 0) : (SB.state == &(st) && SB.op_left == (st).this_op))
 #define SIDE_BLOCKS_LOOP_CONTRACT \
-  __CPROVER_assigns(begin_offset, SB) \
+  __CPROVER_assigns(begin_offset, SB SIDE_STATE_TARGET) \
+  __CPROVER_loop_invariant(SIDE_STATE_INV && SB.warned == 0 && (SB.calls == 0 ==> SB.op_left == 0)) \
   __CPROVER_loop_invariant(begin_offset == 256ul * side + 512ul * SB.calls && SB.calls <= track_bytes_read / 512 + 1) \
   __CPROVER_loop_invariant(SB.calls == 0 || (256ul * side + 512ul * (SB.calls - 1) < track_bytes_read && SB.hfe3 == (hfe_version_ == 3))) \
   __CPROVER_decreases(track_bytes_read + 512 - begin_offset)
 #include "hfe_side_blocks.inc"
 
 static void hfe_side_blocks(unsigned int side, size_t track_bytes_read, int hfe_version_)
-__CPROVER_requires(side <= 1 && side == h_side && track_bytes_read == h_n && track_bytes_read <= (1ul << 20) && SB.calls == 0)
+__CPROVER_requires(side <= 1 && side == h_side && track_bytes_read == h_n && track_bytes_read <= (1ul << 20) && SB.calls == 0 && SB.warned == 0)
 __CPROVER_assigns(SB)
 /* every block of this side was copied: the number of calls is the number of k with 512 k + 256 side < n */
 __CPROVER_ensures(256ul * side + 512ul * SB.calls >= track_bytes_read && (SB.calls == 0 || 256ul * side + 512ul * (SB.calls - 1) < track_bytes_read))
-__CPROVER_ensures(SB.calls > 0 ==> SB.hfe3 == (hfe_version_ == 3));
+__CPROVER_ensures(SB.calls > 0 ==> SB.hfe3 == (hfe_version_ == 3))
+/* a track that ends inside an opcode is reported (once), any other is not */
+__CPROVER_ensures(SB.warned == ((SB.calls > 0 && SB.op_left != 0) ? 1 : 0));
 
 void h_side_blocks(void)
 {
-  h_side = nondet_uint(); h_n = nondet_size_t(); SB.calls = 0;
+  h_side = nondet_uint(); h_n = nondet_size_t(); SB.calls = 0; SB.warned = 0; SB.state = 0; SB.op_left = 0;
   hfe_side_blocks(h_side, h_n, nondet_int());
   VERIF_COVER(SB.calls == 25 && h_side == 1, "25 blocks of side 1");
 }
